@@ -38,6 +38,10 @@ type c11Scenario struct {
 	blocks func(b *drive.Builder, holders []int) []drive.BlockSpec // scenario blocks, built against the forked builder (prev winners tracked there)
 }
 
+// c11Rank: the wealth rank (0 = richest) of the i-th created holder. The rows are NOT created in order of wealth (37 is
+// coprime to 101: a permutation), so "the 100 richest" and "the first 100 rows" are different sets.
+func c11Rank(i int) int { return (i * 37) % 101 }
+
 // c11World: funded ledger with 101 PEG holders with distinct balances (key indices 100..200), A the largest.
 func c11Prefix(b *drive.Builder) {
 	FundStd(b)
@@ -45,7 +49,7 @@ func c11Prefix(b *drive.Builder) {
 		var outs []kit.Out
 		total := uint64(0)
 		for i := 0; i < 101; i++ {
-			amt := uint64(500e8 - uint64(i)*1e8)
+			amt := uint64(500e8 - uint64(c11Rank(i))*1e8)
 			outs = append(outs, kit.Out{Addr: kit.Addr(100 + i), Amount: amt})
 			total += amt
 		}
@@ -285,8 +289,9 @@ func runC11(c *core.Ctx, r *core.Result) {
 			}
 			if w == nil {
 				w = MustWorld(era, c11Prefix)
+				holders = make([]int, 101) // by wealth: holders[0] the richest of them, holders[100] the poorest (holder #101 and beyond)
 				for i := 0; i < 101; i++ {
-					holders = append(holders, 100+i)
+					holders[c11Rank(i)] = 100 + i
 				}
 			}
 			c11One(c, r, w, era, sc, holders, key)
